@@ -316,6 +316,18 @@ class MemEngine(object):
             raw = [t.bytes(n), t.bytes(n), t.bytes(n), t.bytes(n), bytes(n),
                    b"\xff" * n if sname != "sv" else bytes(n)][t.draw(6)]
             vals = self._unpack(f, raw)
+            if f.length > 1 and f.kind != "s":
+                # the elements as a tuple, a list - or, when they are small
+                # non-negative numbers, a bytes object (a sequence of ints)
+                k = t.draw(4)
+                if k == 1:
+                    vals = list(vals)
+                elif k >= 2 and f.size > 1:
+                    small = bytes(t.draw(256) for _ in range(f.length))
+                    raw = b"".join(v.to_bytes(f.size // f.count, "little")
+                                   for v in small)
+                    vals = small if k == 2 else bytearray(small)
+                    self.w.probe("array_values_as_bytes")
             name = "write_struct_field(%s.%s,%r,p=%d)" % (sname, f.name, xy,
                                                           p)
             self.run_op(name, (xy, p, addr, raw), mc.write_struct_field,
